@@ -600,9 +600,106 @@ class SBool(Sym):
     __int__ = __index__
 
 
+class SLog:
+    """log2-domain number represented by its linear value p >= 0 (p == 0 <=> -inf); `nan` marks a possible NaN.
+    a + b = SLog(pa*pb), a - b = SLog(pa/pb), comparisons compare p; math.pow(2, a) leaves the log domain (returns p),
+    math.log2(r) enters it.  +inf is not representable (inputs are finite or -inf)."""
+    __array_priority__ = 3000
+    __hash__ = None
+
+    def __init__(self, p, nan=False):
+        self.p = p
+        self.nan = nan
+
+    def __repr__(self):
+        return "SLog(p=%r%s)" % (self.p, ", nan?" if self.nan is not False else "")
+
+    @staticmethod
+    def _co(o):
+        if isinstance(o, SLog):
+            return o
+        if hasattr(o, "a") and getattr(o.a, "size", 0) == 1:        # 0-d array wrapper
+            return SLog._co(o.a.flat[0])
+        if isinstance(o, float) and o == float("-inf"):
+            return SLog(0)
+        if isinstance(o, (int, float, Fraction)) and not isinstance(o, bool) and o == o and abs(o) != float("inf"):
+            # a concrete finite log-value: only exact powers are representable
+            f = Fraction(o)
+            if f.denominator == 1:
+                return SLog(Fraction(2) ** int(f))
+        return None
+
+    def __add__(self, o):
+        o2 = self._co(o)
+        if o2 is None:
+            raise Inconclusive("SLog + %r not representable" % (o,))
+        return SLog(self.p * o2.p, s_or(self.nan, o2.nan))
+
+    __radd__ = __add__
+
+    def __sub__(self, o):
+        o2 = self._co(o)
+        if o2 is None:
+            raise Inconclusive("SLog - %r not representable" % (o,))
+        # (-inf) - (-inf) is NaN; x - (-inf) = +inf is not representable: both flagged as nan
+        bad = o2.p == 0
+        return SLog(ite(bad, 1, self.p / ite(bad, 1, o2.p)), s_or(self.nan, o2.nan, bad))
+
+    def _cmp(self, o, f, inf_res, ninf_f):
+        if isinstance(o, float) and o == float("inf"):
+            return inf_res
+        o2 = self._co(o)
+        if o2 is None:
+            raise Inconclusive("SLog compared with %r" % (o,))
+        return f(self.p, o2.p)
+
+    def __eq__(self, o):
+        return self._cmp(o, lambda a, b: a == b, False, None)
+
+    def __ne__(self, o):
+        return self._cmp(o, lambda a, b: a != b, True, None)
+
+    def __lt__(self, o):
+        return self._cmp(o, lambda a, b: a < b, True, None)
+
+    def __le__(self, o):
+        return self._cmp(o, lambda a, b: a <= b, True, None)
+
+    def __gt__(self, o):
+        return self._cmp(o, lambda a, b: a > b, False, None)
+
+    def __ge__(self, o):
+        return self._cmp(o, lambda a, b: a >= b, False, None)
+
+
+def slog_ite(c, a, b):
+    return SLog(ite(c, a.p, b.p), ite(c, a.nan, b.nan) if (a.nan is not False or b.nan is not False) else False)
+
+
 # ----------------------------------------------------------------------------- helpers
 
 def ite(c, a, b):
+    c, a, b = unwrap0(c), unwrap0(a), unwrap0(b)
+    if isinstance(a, SLog) or isinstance(b, SLog):
+        a2, b2 = SLog._co(a), SLog._co(b)
+        if a2 is None or b2 is None:
+            raise Inconclusive("ite between a log-domain value and %r / %r" % (a, b))
+        if not isinstance(c, (Sym, z3.ExprRef)):
+            return a if c else b
+        return slog_ite(c, a2, b2)
+    return _ite(c, a, b)
+
+
+def unwrap0(x):
+    """0-d array wrappers (tensor / ndarray facades holding one element) stand for their element"""
+    a = getattr(x, "a", None)
+    if a is not None and getattr(a, "size", 0) == 1 and hasattr(a, "flat") and not isinstance(x, Sym):
+        return a.flat[0]
+    return x
+
+
+def _ite(c, a, b):
+    c, a, b = unwrap0(c), unwrap0(a), unwrap0(b)
     if isinstance(c, Sym):
         c = zb(c)
     if isinstance(c, z3.ExprRef):
@@ -656,7 +753,9 @@ def s_min(*a, **k):
     import builtins
     if len(a) == 1:
         a = tuple(a[0])
-    if not any(isinstance(x, Sym) for x in a):
+    if any(isinstance(unwrap0(x), (Sym, SLog)) for x in a):
+        a = tuple(unwrap0(x) for x in a)
+    if not any(isinstance(x, (Sym, SLog)) for x in a):
         return builtins.min(*a, **k)
     r = a[0]
     for x in a[1:]:
@@ -668,7 +767,9 @@ def s_max(*a, **k):
     import builtins
     if len(a) == 1:
         a = tuple(a[0])
-    if not any(isinstance(x, Sym) for x in a):
+    if any(isinstance(unwrap0(x), (Sym, SLog)) for x in a):
+        a = tuple(unwrap0(x) for x in a)
+    if not any(isinstance(x, (Sym, SLog)) for x in a):
         return builtins.max(*a, **k)
     r = a[0]
     for x in a[1:]:
